@@ -5,6 +5,6 @@ CONSTANTS
   Js = {8}
   Patterns = {"both", "a2b", "b2a"}
   Horizon = 6
-  Posts = {"stranger", "resume"}
+  Posts = {"stranger", "resume", "pending"}
 INVARIANTS NoIdleTeardown NeverWithoutSession ContinuityT Dump
 CHECK_DEADLOCK FALSE
